@@ -16,7 +16,7 @@ CLAIMED = {
     'C04': ('Lean 4 theorems (induction over every nested container history): reader and writer stacks equal the specification (nearest declaring ancestor), siblings never leak, diffs never inherit; exhaustive small-scope correspondence on reader and writer',
             'stack updates extracted as Reader.pushEnc / Writer.pushFrame mirror reader.py:252-266 and writer.py:452-460 (validated differentially)'),
     'C05': ('Lean 4 theorems about the object-model models: to_bytes is the streaming writer run on the tree\'s call sequence (hence canonical by C02) and raises the first failure in document order, falsy contents are skipped, the loader rebuilds the shape (changes / files per change) for every record list, carries options verbatim minus length, and fails only with library errors (or the D13b TypeError); random trees through the public API against to_bytes / from_bytes with an independently written normalisation as oracle',
-            'whole trees: C05_tree_roundtrip proves fromBytes(toBytes t) = the structurally defined normalised tree under ProgramLaws of the tree\'s call list (built on C01_run); that CPython codecs / json satisfy the laws is differential; known finding D25 (empty-string option values)'),
+            'whole trees: C05_tree_roundtrip proves fromBytes(toBytes t) = the structurally defined normalised tree under ProgramLaws of the tree\'s call list (built on C01_run); that CPython codecs / json satisfy the laws is differential'),
     'C06': ('same Lean development as C05 (Dom.toBytes / Dom.fromBytes) plus C06_tree_fixed_point / C06_parse_serialise (re-serialising the parsed tree of a library-written file gives the identical bytes, under ReLaws) and the D14 witness; canonical files (streaming writer output) must re-serialise byte-identically, foreign files from the specification generator must re-serialise to a fixed point with the same contents; model vs implementation on from_bytes and on to_bytes of the loaded tree',
             'known finding D14: foreign files with options the writer has no parameter for, or without any effective encoding, cannot be re-serialised'),
     'C07': ('Lean 4 theorems for every byte string and every cut point: content is framed by its declared length; with the length check switched on (model switch) the records of a truncated file are a prefix of the intact file records; the code as it is yields at most one extra short-read record (D12 witness proved in Lean and replayed every run); every truncation point of generated files against the real reader',
